@@ -168,7 +168,9 @@ func (m *Model) CompareShard(w *World, shard int) []Mismatch {
 // counter not below the highest nonce issued.
 func (m *Model) WellFormed(w *World, shard int) []Clause {
 	var out []Clause
-	bad := func(sig, f string, a ...interface{}) { out = append(out, clause([]string{"C15"}, "wellformed/"+sig, f, a...)) }
+	bad := func(sig, f string, a ...interface{}) {
+		out = append(out, clause([]string{"C15"}, "wellformed/"+sig, f, a...))
+	}
 	s := w.Shards[shard]
 	addrs := make([]string, 0, len(s.Accounts))
 	for k := range s.Accounts {
